@@ -59,7 +59,7 @@ func (c17) Info() core.Info {
 			"lists and byte slices returned earlier must keep their contents whatever is done to the accumulator afterwards (independent copies)",
 			"only slice-level independence of Packets() is demanded",
 		},
-		RequiredProbes: []string{"very_long_unit", "reserved_afc_packet", "pusi_without_payload", "held_results_checked", "second_pusi_restart", "refused_before_start", "write_after_done", "pred_err", "nopayload_packet", "reset_mid", "buffer_reused", "scribbled", "done_at_first_packet", "empty_payload_packet", "af_overrun_packet"},
+		RequiredProbes: []string{"payload_all_ff", "pred_err_is_done_sentinel", "very_long_unit", "reserved_afc_packet", "pusi_without_payload", "held_results_checked", "second_pusi_restart", "refused_before_start", "write_after_done", "pred_err", "nopayload_packet", "reset_mid", "buffer_reused", "scribbled", "done_at_first_packet", "empty_payload_packet", "af_overrun_packet"},
 	}
 }
 
@@ -108,6 +108,13 @@ func c17Packet(op C17Op) (packet.Packet, []byte, bool) {
 			p[k] = 0xFF
 		}
 		return p, nil, false
+	case "payff":
+		// payload-only packet whose 184 payload bytes are all 0xFF (looks like stuffing, is data)
+		p[3] = 0x10 | cc
+		for k := 4; k < 188; k++ {
+			p[k] = 0xFF
+		}
+		return p, append([]byte(nil), p[4:]...), true
 	case "afc0":
 		// reserved adaptation_field_control 00: neither adaptation field nor payload
 		p[3] = cc
@@ -142,7 +149,9 @@ func c17GenOp(r *core.Rand, ser int, hasPayloadPUSI bool) C17Op {
 		return C17Op{Op: "scribble"}
 	}
 	op := C17Op{Op: "write", Ser: ser}
-	switch r.Intn(11) {
+	switch r.Intn(12) {
+	case 11:
+		op.Class = "payff"
 	case 10:
 		op.Class = "afc0"
 	case 0:
@@ -156,7 +165,7 @@ func c17GenOp(r *core.Rand, ser int, hasPayloadPUSI bool) C17Op {
 	default:
 		op.Class = "pay"
 	}
-	if op.Class == "pay" || op.Class == "afpay" {
+	if op.Class == "pay" || op.Class == "afpay" || op.Class == "payff" {
 		op.PUSI = r.Chance(1, 4)
 	} else {
 		// a unit start on a packet without payload: reported as an error, but it is a unit
@@ -174,7 +183,7 @@ func (c17) Gen(r *core.Rand, tier string) interface{} {
 	case 1:
 		s.Pred = PredSpec{Kind: "always"}
 	case 2:
-		s.Pred = PredSpec{Kind: "errwin", N: r.Range(0, 300), T: r.Range(1, 900)}
+		s.Pred = PredSpec{Kind: r.PickS("errwin", "errwin", "errdone"), N: r.Range(0, 300), T: r.Range(1, 900)}
 		s.Pred.M = s.Pred.N + r.Range(1, 400)
 	case 3:
 		s.Pred = PredSpec{Kind: "flap", N: r.Pick(2, 3, 184, 368), M: r.Range(0, 400)}
@@ -264,6 +273,12 @@ func (p *c17Pred) eval(b []byte) (bool, error) {
 	case "errwin":
 		if len(b) >= p.spec.N && len(b) < p.spec.M {
 			return false, &parties.InjectedErr{ID: 3000 + len(b)}
+		}
+		return len(b) >= p.spec.T, nil
+	case "errdone":
+		// a predicate is free to fail with any error value - also with the library's own sentinel
+		if len(b) >= p.spec.N && len(b) < p.spec.M {
+			return false, gots.ErrAccumulatorDone
 		}
 		return len(b) >= p.spec.T, nil
 	case "flap":
@@ -507,6 +522,9 @@ func (c17) Exec(script interface{}, c *core.Ctx) {
 						c.Probe("reserved_afc_packet")
 					}
 				}
+				if hasPay && op.Class == "payff" {
+					c.Probe("payload_all_ff")
+				}
 			}
 			var wantDone bool
 			var wantPredErr error
@@ -526,6 +544,9 @@ func (c17) Exec(script interface{}, c *core.Ctx) {
 					if wantPredErr != nil {
 						wantDone = false
 						c.Probe("pred_err")
+						if wantPredErr == gots.ErrAccumulatorDone {
+							c.Probe("pred_err_is_done_sentinel")
+						}
 						c.Fault("predicate_error")
 					}
 					if wantDone {
